@@ -246,8 +246,17 @@ func (r *Report) emit(verif string, writeEvidence, verbose bool) int {
 			byFunc[res.Obl.Func] = append(byFunc[res.Obl.Func], res)
 		}
 		for _, rs := range byFunc {
-			sort.Slice(rs, func(i, j int) bool { return rs[i].Obl.Seq < rs[j].Obl.Seq })
+			sort.SliceStable(rs, func(i, j int) bool {
+				if rs[i].Obl.Seq != rs[j].Obl.Seq {
+					return rs[i].Obl.Seq < rs[j].Obl.Seq
+				}
+				// a call-site clause sits at its first call site, before whatever was generated next
+				return rs[i].Obl.Kind == "callsite" && rs[j].Obl.Kind != "callsite"
+			})
 			for _, res := range rs {
+				if os.Getenv("GOVC_SEQ_DEBUG") != "" {
+					fmt.Fprintf(os.Stderr, "seq %d %s %s\n", res.Obl.Seq, res.Status, res.Obl.Name)
+				}
 				limit := 20.0
 				if res.Obl.Kind == "lemma" {
 					limit = 80.0 // lemmas run with a 240 s limit: the same safety factor of three
